@@ -63,7 +63,7 @@ func wirePool(a *aspec.ASpec) {
 		aspec.NamedResponse{Name: "SharedProblem", R: &aspec.Response{Desc: "problem", Headers: []aspec.Header{{Name: "X-Next", Schema: str}, {Name: "X-List", Schema: aspec.Schema{K: "array", Items: &str}}}, Body: aspec.Body{K: "json", Schema: &aspec.Schema{K: "ref", To: "Bag"}}}},
 		aspec.NamedResponse{Name: "SharedEmpty", R: &aspec.Response{Desc: "empty", Headers: []aspec.Header{{Name: "x-count", Req: true, Schema: aspec.Schema{K: "int32"}}}, Body: aspec.Body{K: "none"}}},
 		aspec.NamedResponse{Name: "SharedProblemAlias", Alias: "SharedProblem"},
-		aspec.NamedResponse{Name: "SharedDefault", R: &aspec.Response{Desc: "default", Headers: []aspec.Header{{Name: "X-Codes", Req: true, Schema: aspec.Schema{K: "array", Items: &i64}}}, Body: aspec.Body{K: "json", Schema: &aspec.Schema{K: "ref", To: "Thing"}}}},
+		aspec.NamedResponse{Name: "SharedDefault", R: &aspec.Response{Desc: "default", Headers: []aspec.Header{{Name: "X-Codes", Req: true, Schema: aspec.Schema{K: "array", Items: &i64}}}, Body: aspec.Body{K: "json", Schema: &aspec.Schema{K: "ref", To: "Thing"}, Alt: []string{"text/plain"}}}},
 	)
 }
 
@@ -209,6 +209,10 @@ func randWireOp(a *aspec.ASpec, k int, rng *rand.Rand) wireOp {
 	op.Responses = nil
 	for _, st := range statuses[:1+rng.Intn(4)] {
 		r := aspec.Response{Desc: "r " + st, Headers: randHeaders(rng), Body: randSchemaBody(rng)}
+		if r.Body.K == "json" && k%3 == 0 {
+			// a JSON response that is documented in a second media type as well (application/json is what is written)
+			r.Body.Alt = [][]string{{"application/xml"}, {"text/plain"}, {"application/x-yaml", "text/csv"}}[(k/3)%3]
+		}
 		if rng.Intn(3) == 0 {
 			// a shared component; one operation never uses the same component twice
 			name := []string{"SharedProblem", "SharedEmpty", "SharedProblemAlias"}[rng.Intn(3)]
